@@ -15,12 +15,14 @@ DRIVER_EXE = "drv_fail"
 RULE = ("histories (<= 60 operations) over a private POSC database: every ordered pair of the 191 quantity "
         "types (one seeded unit and category each) through Convert / Scalar creation / + - / < <= > >= / "
         "Scalar.GetValue, Array.GetValues, FractionScalar.GetValue in a unit of the other type (also after a valid "
-        "use of that unit, so that memoised conversion data is warm), legacy-"
+        "use of that unit, so that memoised conversion data is warm), derived quantities requested through "
+        "Quantity.CreateDerived and ObtainQuantity(dict) with a foreign unit under a category, failing sums whose "
+        "left operand is a hand-built or numpy-backed derived value (operand snapshots), legacy-"
         "spelled foreign units, the Unknown type, repeated failures (memo path) and interleaved valid operations "
         "on units and categories of one type; distinct = distinct operation; non-trivial = the operation mixes "
         "two quantity types or follows a failed operation in its history")
 EXHAUSTIVE = {"quick": False, "thorough": False}
-ASSUMPTIONS = ["derived operands of + and - are covered by engine Alg (C03); object aliasing by C13",
+ASSUMPTIONS = ["derived operands of + and - stand in the model as simple operands of the same quantity types (their arithmetic is engine Alg, C03); object aliasing by C13",
                "float results within K*eps*M of the exact model (checked, not proved)"]
 
 
@@ -273,12 +275,10 @@ def _run_op(db, op):
             if op["extra"] and op["c2"] != op["c"]:
                 items.append((op["c2"], [op["u2"], 1]))
             m = OrderedDict(items)
+            # both forms run the same category/unit check (ObtainQuantity(dict) since fix 42c424f)
             q = Quantity.CreateDerived(m) if op["how"] == "CreateDerived" else ObtainQuantity(m)
-            if op["how"] == "ObtainQuantity":
-                # ObtainQuantity(dict) does not validate by design; building a value and using it must then fail
-                s0 = Scalar.CreateWithQuantity(q, 1.0)
-                return dict(ok=dict(cat=s0.GetCategory(), unit=s0.GetUnit()), unvalidated=True)
-            return dict(ok=dict(cat=q.GetCategory(), unit=q.GetUnit()))
+            s0 = Scalar.CreateWithQuantity(q, 1.0)
+            return dict(ok=dict(cat=s0.GetCategory(), unit=s0.GetUnit()))
         if k == "arithnd":
             import numpy
             from barril.units import Array
@@ -376,13 +376,13 @@ def _offset_mag(db, op):
 
 
 def _agree_op(op, io, mo, extra_mag=0.0):
-    if op["k"] == "createderived" and io.get("unvalidated"):
-        return None  # ObtainQuantity(dict) stores what it is given (C07 models it); only CreateDerived validates
     if ("err" in io) != ("err" in mo):
         return "one side fails: impl=%s model=%s" % (io, mo)
     if "err" in io:
         return None if io["err"] == mo["err"] else "error kinds differ: impl=%s model=%s" % (io["err"], mo["err"])
     a, b = io["ok"], mo["ok"]
+    if op["k"] == "createderived":
+        return None  # both accept: the model's stand-in is the simple creation, the derived strings are C07's/C20's
     if a is None or b is None:
         return None if a is None and b is None else "shape"
     for key in ("cat", "unit"):
@@ -545,26 +545,6 @@ def oracle(c, ctx):
                 return dict(clause="a later operation behaves differently after an earlier failure",
                             step=i, op=ops[i], with_failures=a, without=b, failed_steps=sorted(failed)[:10])
     return None
-
-
-KNOWN_OBTAIN_DICT = "ObtainQuantity with a composing dict does not validate units"
-
-
-def matches_known(entry, case, failure):
-    """the one recorded C05 finding: ObtainQuantity(dict) (unlike Quantity.CreateDerived) accepts a unit of another
-    quantity type under a category; matched only for exactly that call"""
-    if entry.get("matcher", {}).get("call_site") != KNOWN_OBTAIN_DICT:
-        return False
-    op = (failure or {}).get("op") or {}
-    return op.get("k") == "createderived" and op.get("how") == "ObtainQuantity" \
-        and (failure or {}).get("clause") == "incompatible operation returned a result"
-
-
-def replay_finding(entry, ctx):
-    if entry.get("matcher", {}).get("call_site") != KNOWN_OBTAIN_DICT:
-        return None
-    op = dict(k="createderived", c="length", u="s", e=2, extra=False, c2="time", u2="s", how="ObtainQuantity")
-    return oracle(_history([op]), ctx)
 
 
 def search(ctx):
